@@ -54,21 +54,32 @@ def excluded_for(gname):
     return sorted(set(out))
 
 
-RULE = ("Hypothesis RuleBasedStateMachine (20/30 steps) parameterised by the group class (7 classes) and 0-4 initial "
-        "members (constructor `observers=` / add_foil_detector); members are Python subclasses of the real observer "
-        "classes whose observe() only counts calls, the group hangs under a World. Rules: add a member of an accepted "
-        "type (incl. accepted subclasses, via add_observer / add_sight_line / add_foil_detector, sizes 0-5), add an object "
-        "of a wrong type, assign a group attribute as scalar / list / tuple / ndarray (ndarray only for numeric or bool "
-        "attributes whose setter source names ndarray) with values built to be valid for the receiving members "
-        "(min < max wavelength, rays <= bins, probabilities in [0,1] incl. 0 and 1, positive widths/radii, angle in "
-        "(0.01,90]), assign a sequence of length 0 / n-1 / n+1, rename a member, replace the whole member list "
-        "(permutation/subset/new member, or a list holding a wrong type), index by int / out-of-range int / slice / name "
-        "(unique, missing, duplicated), observe(). The attribute list of a class is the union of its `property` objects "
-        "found by introspection and the documented list. After EVERY rule all attributes of all members, all group "
-        "getters, the member tuple, parents and counters are read back and compared with the model. Non-trivial: a "
-        "history in which a sequence with at least two different values was assigned element-wise to a group of size "
-        ">= 2 and read back, and at least one wrong-length assignment was attempted after a successful assignment; for "
-        "BolometerCamera (no broadcast attributes): size >= 2 at an observe(), a by-name lookup and a rejected wrong type.")
+RULE = ("Hypothesis RuleBasedStateMachine (20/30 steps) parameterised by the group class (7 classes), 0-4 initial members and "
+        "the constructor form (keyword/positional, with/without parent and transform, `observers=` as list or tuple - the "
+        "caller edits its list afterwards); members are Python subclasses of the real observer classes whose observe() only "
+        "counts calls (BolometerIRVB: counts and really observes 2 pixels x 1 sample). Rules: add a member of an accepted type "
+        "(incl. accepted subclasses and, for the camera, foils behind 1-3 shared slits and BolometerIRVB; add_observer / "
+        "add_sight_line / add_foil_detector, positional or keyword, sizes 0-5); offer an object of every other observer kind "
+        "or a non-observer through add_* and through the constructor of a second group; assign a group attribute as scalar "
+        "(Python value, numpy scalar, Python int for a float attribute), list, tuple or ndarray (float64/float32/int64/int32/"
+        "bool/int8, contiguous or strided view; ndarray only for numeric or bool attributes whose setter source names it), "
+        "the same container possibly handed over twice; element values are by class: constructor default / internal preset, "
+        "boundary of the accepted range (rays = bins, min = nextafter(max), 0, 1, 90 deg), the member's current value, or a "
+        "random valid value that differs from the member's current value of this AND of every other attribute of the same "
+        "storage type; assign a sequence of length 0 / n-1 / n+1; every passed container must be unchanged by the call and "
+        "is then edited by the caller; rename a member; replace the member list through observers / sight_lines / "
+        "foil_detectors as list or tuple (permutation, subset, new member, or holding a wrong type) - the caller's list is "
+        "edited afterwards; connect_pipelines (both signatures, positional/keyword/default); index by int / out-of-range / "
+        "slice / name (unique, missing, duplicated) and iteration; observe(); re-read of every getter with the returned "
+        "lists edited by the caller. The attribute list of a class is the union of its `property` objects found by "
+        "introspection and the documented list. After EVERY rule all attributes of all members, all group getters, the "
+        "member tuple, parents, slits and counters are read back and compared with the model. finish() adds a "
+        "deterministic sweep: each attribute through the scalar and the sequence branch of its setter plus one wrong length, "
+        "each rejected kind once, and list-assignment of the members + caller edit + add + broadcast + observe + iteration. "
+        "Non-trivial: a history in which a sequence with at least two different values was assigned element-wise to a "
+        "group of size >= 2 and read back, and at least one wrong-length assignment was attempted after a successful "
+        "assignment; for BolometerCamera (no broadcast attributes): size >= 2 at an observe(), a by-name lookup and a "
+        "rejected wrong type.")
 ASSUMPTIONS = [
     "member-level semantics are trusted: raysect observer setters store the value they are given; "
     "SpectroscopicSightLine/FibreOptic.origin/.direction rebuild the transform (direction is normalised), "
@@ -81,6 +92,9 @@ ASSUMPTIONS = [
     "BolometerCamera documents lookup by int and name only: slices are not demanded of it; for a duplicated name it "
     "must return one of the members carrying it, the Observer0DGroup family must raise ValueError",
     "rejection of a wrong type may be ValueError (Observer0DGroup) or TypeError (BolometerCamera)",
+    "connect_pipelines is checked against its docstring (one new pipeline object per class and member, names, "
+    "display_progress suppressed, spectroscopic variant non-accumulating); the new pipeline objects are taken from the members",
+    "float32 / integer inputs: the member must hold exactly the float64 image of the element handed over",
 ]
 TOLERANCES = {
     "numbers, flags, names": "exact equality (the value is stored, not computed)",
@@ -279,7 +293,7 @@ class Hist:
         self.props = {}
         # evidence
         self.sets, self.wrongs, self.kinds, self.idx, self.lab = set(), set(), set(), set(), set()   # sets: (attr, "scalar"|"seq")
-        self.rej = set()
+        self.rej, self.sizes = set(), set()
         self.n_changes = 0
         self.nt_distinct = self.nt_wrong_after = False
         self.cam_observed2 = self.cam_named = self.rejected = False
@@ -483,6 +497,7 @@ class Hist:
     def invariant(self):
         self._ensure()
         ctx, g, n = self.ctx, self.group, len(self.members)
+        self.sizes.add(n)
         real = self._group_members()
         ctx.check(len(real) == n and all(a is b for a, b in zip(real, self.members)), "members",
                   lambda: "%s holds %d members %s, model has %d %s" % (self.gname, len(real), [getattr(x, "name", x) for x in real],
@@ -556,7 +571,7 @@ class Hist:
             ctx.label("reject:%s.%s" % (self.gname, kk))
         ctx.label(*sorted("kind:" + k for k in self.kinds))
         ctx.label(*sorted("index:" + k for k in self.idx))
-        ctx.label("size:%d" % len(self.members))
+        ctx.label(*sorted("size:%d" % x for x in self.sizes))        # every group size that was checked in this history
         if self.is_camera:
             ctx.nt(self.cam_observed2 and self.cam_named and self.rejected)
         else:
